@@ -107,28 +107,42 @@ theorem no_designated_row_nan (rows : List InRow) (lastq : Nat × InRow)
     omega
   simp [List.filter_append, hn, outObj]
 
-/-- Evaluation only (no iteration 0, designated row first in the file): one history row, iteration 0, holding the
-    designated row; the reported value is its OBJ. -/
-theorem evaluation_only (r : InRow) (rest : List InRow) (hr : r.iter = FINAL)
-    (hrest : ∀ x ∈ rest, x.iter ≠ 0 ∧ x.iter ≠ FINAL) :
-    getIterDf (r :: rest) = .ok [⟨0, some 0⟩] := by
-  have hz : (r :: rest).any (fun x => x.iter == 0) = false := by
-    simp only [List.any_cons, Bool.or_eq_false_iff, List.any_eq_false]
-    refine ⟨by simp [hr, FINAL], fun x hx => by simpa using (hrest x hx).1⟩
-  have hf : (r :: rest).any (fun x => x.iter == FINAL) = true := by simp [hr]
-  have hk : ∀ (l : List InRow) (k : Nat), (∀ x ∈ l, x.iter ≠ FINAL) →
-      ((l.zipIdx k).map (fun p => (p.2, p.1))).filter (fun q => q.2.iter == FINAL) = [] := by
-    intro l k h
-    rw [List.filter_eq_nil_iff]
-    intro q hq
-    simp only [List.mem_map] at hq
-    obtain ⟨p, hp, rfl⟩ := hq
-    have := h p.1 (List.fst_mem_of_mem_zipIdx hp)
+/-- No iteration 0 but a designated row (evaluation only; a step printed without iteration 0): the history is the
+    designated row as iteration 0 — wherever it stands in the file (true since the /repo repair of `_get_iter_df`). -/
+theorem no_zero_designated (rows : List InRow) (fq : Nat × InRow)
+    (hz : rows.any (fun x => x.iter == 0) = false)
+    (hone : (indexed rows).filter (fun q => q.2.iter == FINAL) = [fq]) :
+    getIterDf rows = .ok [⟨0, some fq.1⟩] := by
+  have hf : rows.any (fun x => x.iter == FINAL) = true := by
+    have hm : fq ∈ (indexed rows).filter (fun q => q.2.iter == FINAL) := by rw [hone]; simp
+    have h1 := List.mem_filter.mp hm
+    unfold indexed at h1
+    obtain ⟨p, hp, hpe⟩ := List.mem_map.mp h1.1
+    rw [List.any_eq_true]
+    refine ⟨p.1, List.fst_mem_of_mem_zipIdx hp, ?_⟩
+    have := h1.2
+    rw [← hpe] at this
     simpa using this
   unfold getIterDf
-  simp only [hz, hf, Bool.not_false, Bool.and_self, ↓reduceIte, indexed, List.zipIdx_cons, List.map_cons]
-  have : ((rest.zipIdx (0 + 1)).map (fun p => (p.2, p.1))).filter (fun q => q.2.iter == FINAL) = [] :=
-    hk rest 1 (fun x hx => (hrest x hx).2)
-  simp [hr, this]
+  simp only [hz, hf, Bool.not_false, Bool.and_self, ↓reduceIte, hone, List.map_nil]
+
+/-- … and the reported final objective value is then the OBJ of the designated row. -/
+theorem no_zero_designated_ofv (rows : List InRow) (fq : Nat × InRow) (v : Int)
+    (hz : rows.any (fun x => x.iter == 0) = false)
+    (hone : (indexed rows).filter (fun q => q.2.iter == FINAL) = [fq])
+    (hsrc : rows[fq.1]? = some fq.2) (hv : fq.2.obj = some v)
+    (hfirst : firstWhere (fun r => r.iter == FINAL) rows = some fq) :
+    reportedFinalOfv rows = some (some v) := by
+  unfold reportedFinalOfv
+  rw [no_zero_designated rows fq hz hone]
+  simp [outObj, hsrc, hv, tableFinalOfv, hfirst]
+
+example : reportedFinalOfv [⟨1, some 1⟩, ⟨18, some 6⟩, ⟨30, some 3⟩, ⟨FINAL, some 3⟩, ⟨FINAL - 1, some 0⟩] = some (some 3) := by decide
+
+/-- Before the repair the label, not the position, was addressed: with the designated row anywhere but first the
+    history ended in a row of NaNs (and NaN was reported). -/
+theorem first_branch_old_witness :
+    firstBranchOld [⟨1, some 1⟩, ⟨30, some 3⟩, ⟨FINAL, some 3⟩] = [⟨FINAL, some 2⟩, ⟨0, none⟩] ∧
+    getIterDf [⟨1, some 1⟩, ⟨30, some 3⟩, ⟨FINAL, some 3⟩] = .ok [⟨0, some 2⟩] := by decide
 
 end Pharmpy.C20.IterDf
